@@ -22,6 +22,7 @@ type c03Stats struct {
 }
 
 func checkC03(rt *caseRT, st *c03Stats) []vio {
+	floorSeen := map[string]bool{}
 	var vs []vio
 	add := func(k, d string) { vs = append(vs, vio{k, d}) }
 	emits := rt.sortedEmits()
@@ -172,6 +173,13 @@ func checkC03(rt *caseRT, st *c03Stats) []vio {
 			}
 		}
 		if len(floors) > 0 {
+			addOnce := func(k string, fc int, d string) {
+				sig := fmt.Sprintf("%s|%s|%d", k, q, fc)
+				if !floorSeen[sig] {
+					floorSeen[sig] = true
+					add(k, d)
+				}
+			}
 			fwdColl := map[int]bool{} // collections whose packs reach q through the forward path
 			for _, ep := range deq {
 				if ep.Rec != nil && ep.Rec.forwarded {
@@ -202,7 +210,7 @@ func checkC03(rt *caseRT, st *c03Stats) []vio {
 							} else if fwdOwn {
 								k = "C03/forwarded-stream-below-its-own-resume-checkpoint"
 							}
-							add(k, fmt.Sprintf("q=%s seq=%d uid=%d ts %d <= checkpoint ts %d of collection %d", q, ep.Seq, m.UID, m.End, f.ts, f.coll))
+							addOnce(k, f.coll, fmt.Sprintf("q=%s seq=%d uid=%d ts %d <= checkpoint ts %d of collection %d", q, ep.Seq, m.UID, m.End, f.ts, f.coll))
 						}
 					}
 					if tick < f.ts {
@@ -212,7 +220,7 @@ func checkC03(rt *caseRT, st *c03Stats) []vio {
 						} else if fwdOwn {
 							k = "C03/forwarded-stream-below-its-own-resume-checkpoint"
 						}
-						add(k, fmt.Sprintf("q=%s seq=%d tick %d < checkpoint ts %d of collection %d (pack of collection %d)", q, ep.Seq, tick, f.ts, f.coll, own))
+						addOnce(k, f.coll, fmt.Sprintf("q=%s seq=%d tick %d < checkpoint ts %d of collection %d (pack of collection %d)", q, ep.Seq, tick, f.ts, f.coll, own))
 					}
 				}
 			}
